@@ -84,6 +84,21 @@ impl NamespaceStates {
         }
     }
 
+    /// Returns true if a sync request that we started ourselves is currently marked as running
+    /// for this namespace and node.
+    pub fn is_connecting(&self, namespace: &NamespaceId, node: &EndpointId) -> bool {
+        match self.0.get(namespace).and_then(|n| n.nodes.get(node)) {
+            Some(peer) => matches!(
+                peer.state,
+                SyncState::Running {
+                    origin: Origin::Connect(_),
+                    ..
+                }
+            ),
+            None => false,
+        }
+    }
+
     /// Accept a sync request.
     ///
     /// Returns the [`AcceptOutcome`] to be performed.
